@@ -70,6 +70,17 @@ impl GraphBlock {
         }
     }
 
+    /// a list whose first item has no text of its own: its first line is the marker alone
+    fn starts_with_bare_marker(&self) -> bool {
+        match self {
+            GraphBlock::BulletList(items) | GraphBlock::OrderedList(items) => items
+                .first()
+                .and_then(|item| item.first())
+                .map_or(false, |block| block.is_empty_text()),
+            _ => false,
+        }
+    }
+
     fn is_empty_text(&self) -> bool {
         match self {
             GraphBlock::Plain(inlines) => inlines.is_empty(),
@@ -658,6 +669,17 @@ pub fn blocks_to_markdown_and(blocks: &Blocks, sparce: bool, options: &MarkdownO
         } else if n > 0 && matches!(blocks[n - 1], GraphBlock::BlockQuote(_)) && !block.is_list() {
             // text or a table directly under a quote would be read back as a lazy
             // continuation of the quote's last paragraph
+            result.push_str("\n");
+        } else if n > 0 && blocks[n - 1].is_list() && !block.is_list() {
+            // ... and directly under a nested list as a continuation of its last item
+            result.push_str("\n");
+        } else if n > 0
+            && blocks[n - 1].is_paragraph()
+            && !blocks[n - 1].is_empty_text()
+            && block.starts_with_bare_marker()
+        {
+            // a bare "-" directly under a text line would be read back as a setext
+            // heading underline
             result.push_str("\n");
         }
         result.push_str(&block.to_markdown_marked(options, other_marker[n]));
